@@ -62,6 +62,7 @@ type FuncContract struct {
 	Line     int
 	Trusted  string
 	Reveal   []string
+	Uses     []*Expr // lemma applications: call expressions L(args)
 	Sites    map[string][]*Clause // call-site ghost clauses: key "assert:<callee>#k"
 }
 
@@ -116,7 +117,7 @@ func NewContractSet() *ContractSet {
 var subKeywords = map[string]bool{"mode": true, "props": true, "inline": true, "unroll": true, "requires": true,
 	"ensures": true, "modifies": true, "loop": true, "let": true, "assumes": true, "effect": true,
 	"nopanic": true, "maypanic": true, "pure": true, "trusted": true, "invariant": true, "protects": true,
-	"ghost": true, "site": true, "bounded": true, "reveal": true}
+	"ghost": true, "site": true, "bounded": true, "reveal": true, "use": true}
 
 var labelRe = regexp.MustCompile(`^\[([^\]]+)\]\s*`)
 
@@ -448,6 +449,15 @@ func (cs *ContractSet) LoadFile(path, pkg string) error {
 			cur.Props = strings.Fields(rest)
 		case "inline":
 			cur.Inline = true
+		case "use":
+			e, err := ParseExpr(rest)
+			if err != nil {
+				return fmt.Errorf("%s:%d: %v", path, l.line, err)
+			}
+			if e.Kind != "call" {
+				return fmt.Errorf("%s:%d: use LEMMA(args)", path, l.line)
+			}
+			cur.Uses = append(cur.Uses, e)
 		case "reveal":
 			for _, f := range strings.Split(rest, ",") {
 				cur.Reveal = append(cur.Reveal, strings.TrimSpace(f))
